@@ -1,0 +1,202 @@
+//! Verification hooks (only compiled with the `verif-hooks` feature).
+//!
+//! Nothing in here changes the behaviour of the library. It offers failpoints ([`point`]) that
+//! call an optional, externally installed hook, a way to run the dispatcher synchronously
+//! ([`dispatch`]), a thin public wrapper around the crate-private half-lock
+//! ([`HalfLockProbe`]) and a `sigaction` indirection ([`libc_shim`]) so that the registry can be
+//! run under interpreters that cannot call the real `sigaction`.
+#![allow(missing_docs)]
+
+use std::sync::atomic::{AtomicPtr, Ordering};
+
+use libc::{c_int, c_void, siginfo_t};
+
+use half_lock::HalfLock;
+
+/// The hook signature: `(site, a, b)`.
+pub type Hook = fn(u32, usize, usize);
+
+static HOOK: AtomicPtr<()> = AtomicPtr::new(0 as *mut ());
+
+/// Installs (or removes) the hook called by every [`point`].
+pub fn set_hook(hook: Option<Hook>) {
+    let ptr = match hook {
+        Some(h) => h as *mut (),
+        None => 0 as *mut (),
+    };
+    // Relaxed on purpose: the hook must not add happens-before edges to the code it observes.
+    HOOK.store(ptr, Ordering::Relaxed);
+}
+
+/// A failpoint. No-op unless a hook is installed.
+#[inline]
+pub fn point(site: u32, a: usize, b: usize) {
+    let ptr = HOOK.load(Ordering::Relaxed);
+    if !ptr.is_null() {
+        let hook: Hook = unsafe { std::mem::transmute::<*mut (), Hook>(ptr) };
+        hook(site, a, b);
+    }
+}
+
+/// Site numbers.
+pub mod site {
+    // half_lock.rs, read side
+    pub const HL_R_GEN: u32 = 1;
+    pub const HL_R_INC: u32 = 2;
+    pub const HL_R_PTR: u32 = 3;
+    pub const HL_R_CLOSE: u32 = 4;
+    // half_lock.rs, write side
+    pub const HL_W_LOCKED: u32 = 8;
+    pub const HL_W_ALLOC: u32 = 9;
+    pub const HL_W_SWAPPED: u32 = 10;
+    pub const HL_B_FIRST: u32 = 11;
+    pub const HL_B_FLIP: u32 = 12;
+    pub const HL_B_SPIN: u32 = 13;
+    pub const HL_B_DONE: u32 = 14;
+    pub const HL_W_FREE: u32 = 15;
+    pub const HL_W_FREED: u32 = 16;
+    // registry lib.rs, dispatcher
+    pub const DISPATCH_ENTER: u32 = 20;
+    pub const DISPATCH_EXIT: u32 = 21;
+    pub const D_AFTER_FALLBACK_READ: u32 = 22;
+    pub const D_AFTER_DATA_READ: u32 = 23;
+    pub const D_BEFORE_PREV: u32 = 24;
+    pub const D_BEFORE_ACTION: u32 = 25;
+    pub const D_FALLBACK_PREV: u32 = 26;
+    // registry lib.rs, mutators
+    pub const REG_CLONED: u32 = 30;
+    pub const REG_BEFORE_FALLBACK: u32 = 31;
+    pub const REG_AFTER_FALLBACK: u32 = 32;
+    pub const REG_AFTER_SIGACTION: u32 = 33;
+    pub const REG_BEFORE_PUBLISH: u32 = 34;
+    pub const REG_DONE: u32 = 35;
+    pub const UNREG_CLONED: u32 = 36;
+    pub const UNREG_BEFORE_PUBLISH: u32 = 37;
+    pub const UNREG_DONE: u32 = 38;
+    // channel.rs
+    pub const CH_DEQ_ITER: u32 = 40;
+    pub const CH_DEQ_OK: u32 = 41;
+    pub const CH_DEQ_EMPTY: u32 = 42;
+    pub const CH_ENQ_ITER: u32 = 43;
+    pub const CH_ENQ_OK: u32 = 44;
+    pub const CH_SEND_CELL_W: u32 = 45;
+    pub const CH_SEND_FILLED: u32 = 46;
+    pub const CH_RECV_CELL_R: u32 = 47;
+    pub const CH_RECV_TAKEN: u32 = 48;
+    pub const CH_SEND_FULL: u32 = 49;
+    // iterator backend / front-end
+    pub const IT_A_STORED: u32 = 60;
+    pub const IT_A_WOKEN: u32 = 61;
+    pub const IT_FLUSH_BEGIN: u32 = 62;
+    pub const IT_FLUSH_END: u32 = 63;
+    pub const IT_SCAN: u32 = 64;
+    pub const IT_PP_CLOSED_CHECKED: u32 = 65;
+    pub const IT_PP_ASKED: u32 = 66;
+    pub const IT_PS_LOOP: u32 = 67;
+    pub const IT_PS_ITER_EMPTY: u32 = 68;
+    pub const IT_CLOSE_FLAGGED: u32 = 69;
+    pub const IT_ADD_LOCKED: u32 = 70;
+    pub const IT_ADD_REGISTERED: u32 = 71;
+    pub const IT_DROP_BEGIN: u32 = 72;
+    pub const IT_HAS_BEFORE_READ: u32 = 73;
+    // pipe.rs / exfiltrators
+    pub const PIPE_WAKE: u32 = 80;
+    pub const EX_LOAD: u32 = 81;
+    pub const EX_STORE: u32 = 82;
+}
+
+/// Emits `DISPATCH_ENTER` when created and `DISPATCH_EXIT` when dropped.
+///
+/// Declared as the first local of the dispatcher, so it is dropped after both read guards.
+pub struct DispatchBracket(c_int);
+
+impl DispatchBracket {
+    #[inline]
+    pub fn new(sig: c_int) -> Self {
+        point(site::DISPATCH_ENTER, sig as usize, 0);
+        DispatchBracket(sig)
+    }
+}
+
+impl Drop for DispatchBracket {
+    #[inline]
+    fn drop(&mut self) {
+        point(site::DISPATCH_EXIT, self.0 as usize, 0);
+    }
+}
+
+/// Runs the library's signal dispatcher synchronously, as if the signal was delivered here.
+///
+/// # Safety
+///
+/// The same as being called by the kernel: `info` must be valid (or the process aborts).
+#[cfg(not(windows))]
+pub unsafe fn dispatch(sig: c_int, info: *mut siginfo_t, ctx: *mut c_void) {
+    super::handler(sig, info, ctx)
+}
+
+/// The address of the dispatcher, as installed into `sa_sigaction`.
+#[cfg(not(windows))]
+pub fn dispatcher_addr() -> usize {
+    super::handler as usize
+}
+
+/// A public window onto the crate-private half-lock.
+pub struct HalfLockProbe<T>(HalfLock<T>);
+
+impl<T> HalfLockProbe<T> {
+    pub fn new(data: T) -> Self {
+        HalfLockProbe(HalfLock::new(data))
+    }
+
+    /// Runs `f` under a read guard (as the dispatcher does).
+    pub fn read<R, F: FnOnce(&T) -> R>(&self, f: F) -> R {
+        let guard = self.0.read();
+        f(&guard)
+    }
+
+    /// Takes the writer lock, computes a new value from the current one and publishes it (as
+    /// `register`/`unregister` do).
+    pub fn update<F: FnOnce(&T) -> T>(&self, f: F) {
+        let mut lock = self.0.write();
+        let new = f(&lock);
+        lock.store(new);
+    }
+}
+
+/// `libc`, with `sigaction` going through an optional override.
+#[cfg(not(windows))]
+pub mod libc_shim {
+    pub use libc::*;
+
+    use std::sync::atomic::{AtomicPtr, Ordering};
+
+    pub type SigactionFn =
+        unsafe fn(c_int, *const ::libc::sigaction, *mut ::libc::sigaction) -> c_int;
+
+    static OVERRIDE: AtomicPtr<()> = AtomicPtr::new(0 as *mut ());
+
+    /// Installs a replacement for the `sigaction` calls of the registry (a kernel model for
+    /// interpreters). Never installed in native runs.
+    pub fn set_sigaction_override(f: Option<SigactionFn>) {
+        let ptr = match f {
+            Some(f) => f as *mut (),
+            None => 0 as *mut (),
+        };
+        OVERRIDE.store(ptr, Ordering::SeqCst);
+    }
+
+    pub unsafe fn sigaction(
+        sig: c_int,
+        new: *const ::libc::sigaction,
+        old: *mut ::libc::sigaction,
+    ) -> c_int {
+        let ptr = OVERRIDE.load(Ordering::SeqCst);
+        if ptr.is_null() {
+            ::libc::sigaction(sig, new, old)
+        } else {
+            let f: SigactionFn = std::mem::transmute::<*mut (), SigactionFn>(ptr);
+            f(sig, new, old)
+        }
+    }
+}
